@@ -69,6 +69,7 @@ class Box(object):
         kw = dict(name=NAME, parent_dir=self.tmp)
         if for_sow:
             kw["num_batches"] = NBATCH
+            pass
         if f is None:
             return xyz.Crop(fn=self.fn, **kw) if for_sow else xyz.Crop(**kw)
         return xyz.Crop(farmer=f, **kw)
@@ -106,7 +107,11 @@ def sow(box):
         it = iter(vals)
         c.sow_samples(len(vals), combos={"a": lambda: next(it)}, verbosity=0)
     else:
-        c.sow_combos(COMBOS, verbosity=0)
+        if box.engine == "shuffle":
+            # a raw crop sown in shuffled order: a re-sow (recovery) must lay the batches out the same way
+            c.sow_combos(COMBOS, verbosity=0, shuffle=True)
+        else:
+            c.sow_combos(COMBOS, verbosity=0)
 
 
 def prepare(box, upto):
